@@ -175,6 +175,20 @@ CLAIMS.update({
         technique="VC generation from the real AST over structured symbolic strings, per table entry",
     ),
 })
+CLAIMS.update({
+    "C13": dict(
+        category="proof",
+        text=("Frame (assigns) obligations of every function of the decode path, discharged on the symbolic executions already used for "
+              "C03/C09 (the leaf writes only its own attribute and the MSM counters, the walk only its index list and the message state, "
+              "_getsatcellmaps only the two maps, parse nothing), plus a syntactic frame scan of the code modules (no global/nonlocal, no "
+              "mutable defaults, no module- or class-level state, no store or mutating call rooted outside locals/self) and of the table "
+              "modules (literal dict/tuple data, no hash-ordered sets). Any store into a table or module global is outside the modelled "
+              "subset and is reported. The thread clause is argued from these frame conditions; a labelled bounded history sweep backs it."),
+        design_ref="DESIGN.md 5/C13",
+        note=BASE_TRUST + "Thread interleavings are not machine-checked (argued corollary, evidence.argued_corollaries).",
+        technique="frame conditions checked on every write site by the VC generator + syntactic frame scan; labelled bounded history sweep",
+    ),
+})
 REASONS = {}
 
 checks = []
